@@ -12,6 +12,9 @@
 -/
 import Pk.Model.Bits
 import Pk.Proofs.Bits
+import Pk.Proofs.BitsConn
+import Pk.Proofs.BitsLong
+import Pk.Proofs.BitsShort
 
 namespace Pk.Props.C17
 open Pk.Bits
@@ -44,43 +47,140 @@ def RInv : Pk.Bits.Conn → Prop
   | [e] => e.lo ≤ e.hi
   | e :: e2 :: es => e.lo ≤ e.hi ∧ e.hi + 1 < e2.lo ∧ RInv (e2 :: es)
 
-theorem make_inv (lo hi : Nat) (h : lo ≤ hi) : RInv (make lo hi) := by sorry
-theorem make_abs (lo hi x : Nat) : (make lo hi).isSet x = (decide (lo ≤ x) && decide (x ≤ hi)) := by sorry
+theorem make_inv (lo hi : Nat) (h : lo ≤ hi) : RInv (make lo hi) := by
+  have tie : ∀ c, RInv c ↔ Pk.Proofs.Bits.Conn.RInv c :=
+    Pk.Proofs.Bits.Conn.rinv_unique RInv trivial (fun _ => Iff.rfl) (fun _ _ _ => Iff.rfl)
+  rw [tie] at *
+  exact Pk.Proofs.Bits.Conn.make_inv lo hi h
+theorem make_abs (lo hi x : Nat) : (make lo hi).isSet x = (decide (lo ≤ x) && decide (x ≤ hi)) := by
+  exact Pk.Proofs.Bits.Conn.make_isSet lo hi x
 
-theorem set_abs (c : Pk.Bits.Conn) (b : Nat) (h : RInv c) : (c.set b).isSet = specSet c.isSet b := by sorry
-theorem set_inv (c : Pk.Bits.Conn) (b : Nat) (h : RInv c) : RInv (c.set b) := by sorry
-theorem unset_abs (c : Pk.Bits.Conn) (b : Nat) (h : RInv c) : (c.unset b).isSet = specUnset c.isSet b := by sorry
-theorem unset_inv (c : Pk.Bits.Conn) (b : Nat) (h : RInv c) : RInv (c.unset b) := by sorry
-theorem flip_abs (c : Pk.Bits.Conn) (b : Nat) (h : RInv c) : (c.flip b).isSet = specFlip c.isSet b := by sorry
-theorem flip_inv (c : Pk.Bits.Conn) (b : Nat) (h : RInv c) : RInv (c.flip b) := by sorry
+theorem set_abs (c : Pk.Bits.Conn) (b : Nat) (h : RInv c) : (c.set b).isSet = specSet c.isSet b := by
+  have tie : ∀ c, RInv c ↔ Pk.Proofs.Bits.Conn.RInv c :=
+    Pk.Proofs.Bits.Conn.rinv_unique RInv trivial (fun _ => Iff.rfl) (fun _ _ _ => Iff.rfl)
+  rw [tie] at *
+  funext x; simp only [specSet]; exact Pk.Proofs.Bits.Conn.set_isSet c b h x
+theorem set_inv (c : Pk.Bits.Conn) (b : Nat) (h : RInv c) : RInv (c.set b) := by
+  have tie : ∀ c, RInv c ↔ Pk.Proofs.Bits.Conn.RInv c :=
+    Pk.Proofs.Bits.Conn.rinv_unique RInv trivial (fun _ => Iff.rfl) (fun _ _ _ => Iff.rfl)
+  rw [tie] at *
+  exact (Pk.Proofs.Bits.Conn.set_inv_lb c b h).1
+theorem unset_abs (c : Pk.Bits.Conn) (b : Nat) (h : RInv c) : (c.unset b).isSet = specUnset c.isSet b := by
+  have tie : ∀ c, RInv c ↔ Pk.Proofs.Bits.Conn.RInv c :=
+    Pk.Proofs.Bits.Conn.rinv_unique RInv trivial (fun _ => Iff.rfl) (fun _ _ _ => Iff.rfl)
+  rw [tie] at *
+  funext x; simp only [specUnset]; exact Pk.Proofs.Bits.Conn.unset_isSet c b h x
+theorem unset_inv (c : Pk.Bits.Conn) (b : Nat) (h : RInv c) : RInv (c.unset b) := by
+  have tie : ∀ c, RInv c ↔ Pk.Proofs.Bits.Conn.RInv c :=
+    Pk.Proofs.Bits.Conn.rinv_unique RInv trivial (fun _ => Iff.rfl) (fun _ _ _ => Iff.rfl)
+  rw [tie] at *
+  exact (Pk.Proofs.Bits.Conn.unset_inv_lb c b h).1
+theorem flip_abs (c : Pk.Bits.Conn) (b : Nat) (h : RInv c) : (c.flip b).isSet = specFlip c.isSet b := by
+  have tie : ∀ c, RInv c ↔ Pk.Proofs.Bits.Conn.RInv c :=
+    Pk.Proofs.Bits.Conn.rinv_unique RInv trivial (fun _ => Iff.rfl) (fun _ _ _ => Iff.rfl)
+  rw [tie] at *
+  funext x; simp only [specFlip]; exact Pk.Proofs.Bits.Conn.flip_isSet c b h x
+theorem flip_inv (c : Pk.Bits.Conn) (b : Nat) (h : RInv c) : RInv (c.flip b) := by
+  have tie : ∀ c, RInv c ↔ Pk.Proofs.Bits.Conn.RInv c :=
+    Pk.Proofs.Bits.Conn.rinv_unique RInv trivial (fun _ => Iff.rfl) (fun _ _ _ => Iff.rfl)
+  rw [tie] at *
+  exact Pk.Proofs.Bits.Conn.flip_inv c b h
 
-theorem or_abs (a b : Pk.Bits.Conn) (ha : RInv a) (hb : RInv b) : (Conn.or a b).isSet = specOr a.isSet b.isSet := by sorry
-theorem or_inv (a b : Pk.Bits.Conn) (ha : RInv a) (hb : RInv b) : RInv (Conn.or a b) := by sorry
-theorem and_abs (a b : Pk.Bits.Conn) (ha : RInv a) (hb : RInv b) : (Conn.and a b).isSet = specAnd a.isSet b.isSet := by sorry
-theorem and_inv (a b : Pk.Bits.Conn) (ha : RInv a) (hb : RInv b) : RInv (Conn.and a b) := by sorry
-theorem xor_abs (a b : Pk.Bits.Conn) (ha : RInv a) (hb : RInv b) : (Conn.xor a b).isSet = specXor a.isSet b.isSet := by sorry
-theorem xor_inv (a b : Pk.Bits.Conn) (ha : RInv a) (hb : RInv b) : RInv (Conn.xor a b) := by sorry
-theorem sub_abs (a b : Pk.Bits.Conn) (ha : RInv a) (hb : RInv b) : (Conn.sub a b).isSet = specSub a.isSet b.isSet := by sorry
-theorem sub_inv (a b : Pk.Bits.Conn) (ha : RInv a) (hb : RInv b) : RInv (Conn.sub a b) := by sorry
+theorem or_abs (a b : Pk.Bits.Conn) (ha : RInv a) (hb : RInv b) : (Conn.or a b).isSet = specOr a.isSet b.isSet := by
+  have tie : ∀ c, RInv c ↔ Pk.Proofs.Bits.Conn.RInv c :=
+    Pk.Proofs.Bits.Conn.rinv_unique RInv trivial (fun _ => Iff.rfl) (fun _ _ _ => Iff.rfl)
+  rw [tie] at *
+  funext x; simp only [specOr]; exact Pk.Proofs.Bits.Conn.or_isSet a b ha hb x
+theorem or_inv (a b : Pk.Bits.Conn) (ha : RInv a) (hb : RInv b) : RInv (Conn.or a b) := by
+  have tie : ∀ c, RInv c ↔ Pk.Proofs.Bits.Conn.RInv c :=
+    Pk.Proofs.Bits.Conn.rinv_unique RInv trivial (fun _ => Iff.rfl) (fun _ _ _ => Iff.rfl)
+  rw [tie] at *
+  exact Pk.Proofs.Bits.Conn.or_inv a b ha hb
+theorem and_abs (a b : Pk.Bits.Conn) (ha : RInv a) (hb : RInv b) : (Conn.and a b).isSet = specAnd a.isSet b.isSet := by
+  have tie : ∀ c, RInv c ↔ Pk.Proofs.Bits.Conn.RInv c :=
+    Pk.Proofs.Bits.Conn.rinv_unique RInv trivial (fun _ => Iff.rfl) (fun _ _ _ => Iff.rfl)
+  rw [tie] at *
+  funext x; simp only [specAnd]; exact Pk.Proofs.Bits.Conn.and_isSet a b ha hb x
+theorem and_inv (a b : Pk.Bits.Conn) (ha : RInv a) (hb : RInv b) : RInv (Conn.and a b) := by
+  have tie : ∀ c, RInv c ↔ Pk.Proofs.Bits.Conn.RInv c :=
+    Pk.Proofs.Bits.Conn.rinv_unique RInv trivial (fun _ => Iff.rfl) (fun _ _ _ => Iff.rfl)
+  rw [tie] at *
+  exact (Pk.Proofs.Bits.Conn.and_inv_lb a b ha hb).1
+theorem xor_abs (a b : Pk.Bits.Conn) (ha : RInv a) (hb : RInv b) : (Conn.xor a b).isSet = specXor a.isSet b.isSet := by
+  have tie : ∀ c, RInv c ↔ Pk.Proofs.Bits.Conn.RInv c :=
+    Pk.Proofs.Bits.Conn.rinv_unique RInv trivial (fun _ => Iff.rfl) (fun _ _ _ => Iff.rfl)
+  rw [tie] at *
+  funext x; simp only [specXor]; exact Pk.Proofs.Bits.Conn.xor_isSet a b ha hb x
+theorem xor_inv (a b : Pk.Bits.Conn) (ha : RInv a) (hb : RInv b) : RInv (Conn.xor a b) := by
+  have tie : ∀ c, RInv c ↔ Pk.Proofs.Bits.Conn.RInv c :=
+    Pk.Proofs.Bits.Conn.rinv_unique RInv trivial (fun _ => Iff.rfl) (fun _ _ _ => Iff.rfl)
+  rw [tie] at *
+  exact Pk.Proofs.Bits.Conn.xor_inv a b ha hb
+theorem sub_abs (a b : Pk.Bits.Conn) (ha : RInv a) (hb : RInv b) : (Conn.sub a b).isSet = specSub a.isSet b.isSet := by
+  have tie : ∀ c, RInv c ↔ Pk.Proofs.Bits.Conn.RInv c :=
+    Pk.Proofs.Bits.Conn.rinv_unique RInv trivial (fun _ => Iff.rfl) (fun _ _ _ => Iff.rfl)
+  rw [tie] at *
+  funext x; simp only [specSub]; exact Pk.Proofs.Bits.Conn.sub_isSet a b ha hb x
+theorem sub_inv (a b : Pk.Bits.Conn) (ha : RInv a) (hb : RInv b) : RInv (Conn.sub a b) := by
+  have tie : ∀ c, RInv c ↔ Pk.Proofs.Bits.Conn.RInv c :=
+    Pk.Proofs.Bits.Conn.rinv_unique RInv trivial (fun _ => Iff.rfl) (fun _ _ _ => Iff.rfl)
+  rw [tie] at *
+  exact (Pk.Proofs.Bits.Conn.sub_inv_lb a b ha hb).1
 
 theorem inject_abs (c : Pk.Bits.Conn) (bit : Nat) (v : Bool) (h : RInv c) :
-    (c.inject bit v).isSet = specInject c.isSet bit v := by sorry
-theorem inject_inv (c : Pk.Bits.Conn) (bit : Nat) (v : Bool) (h : RInv c) : RInv (c.inject bit v) := by sorry
+    (c.inject bit v).isSet = specInject c.isSet bit v := by
+  have tie : ∀ c, RInv c ↔ Pk.Proofs.Bits.Conn.RInv c :=
+    Pk.Proofs.Bits.Conn.rinv_unique RInv trivial (fun _ => Iff.rfl) (fun _ _ _ => Iff.rfl)
+  rw [tie] at *
+  funext x; simp only [specInject]; exact Pk.Proofs.Bits.Conn.inject_isSet c bit v h x
+theorem inject_inv (c : Pk.Bits.Conn) (bit : Nat) (v : Bool) (h : RInv c) : RInv (c.inject bit v) := by
+  have tie : ∀ c, RInv c ↔ Pk.Proofs.Bits.Conn.RInv c :=
+    Pk.Proofs.Bits.Conn.rinv_unique RInv trivial (fun _ => Iff.rfl) (fun _ _ _ => Iff.rfl)
+  rw [tie] at *
+  exact Pk.Proofs.Bits.Conn.inject_inv c bit v h
 theorem extract_abs (c : Pk.Bits.Conn) (bit : Nat) (h : RInv c) :
-    (c.extract bit).1.isSet = specExtract c.isSet bit := by sorry
-theorem extract_ret (c : Pk.Bits.Conn) (bit : Nat) (h : RInv c) : (c.extract bit).2 = c.isSet bit := by sorry
-theorem extract_inv (c : Pk.Bits.Conn) (bit : Nat) (h : RInv c) : RInv (c.extract bit).1 := by sorry
+    (c.extract bit).1.isSet = specExtract c.isSet bit := by
+  have tie : ∀ c, RInv c ↔ Pk.Proofs.Bits.Conn.RInv c :=
+    Pk.Proofs.Bits.Conn.rinv_unique RInv trivial (fun _ => Iff.rfl) (fun _ _ _ => Iff.rfl)
+  rw [tie] at *
+  funext x; simp only [specExtract]; exact (Pk.Proofs.Bits.Conn.extract_spec c bit h).2.1 x
+theorem extract_ret (c : Pk.Bits.Conn) (bit : Nat) (h : RInv c) : (c.extract bit).2 = c.isSet bit := by
+  have tie : ∀ c, RInv c ↔ Pk.Proofs.Bits.Conn.RInv c :=
+    Pk.Proofs.Bits.Conn.rinv_unique RInv trivial (fun _ => Iff.rfl) (fun _ _ _ => Iff.rfl)
+  rw [tie] at *
+  exact (Pk.Proofs.Bits.Conn.extract_spec c bit h).2.2
+theorem extract_inv (c : Pk.Bits.Conn) (bit : Nat) (h : RInv c) : RInv (c.extract bit).1 := by
+  have tie : ∀ c, RInv c ↔ Pk.Proofs.Bits.Conn.RInv c :=
+    Pk.Proofs.Bits.Conn.rinv_unique RInv trivial (fun _ => Iff.rfl) (fun _ _ _ => Iff.rfl)
+  rw [tie] at *
+  exact (Pk.Proofs.Bits.Conn.extract_spec c bit h).1
 
 /-- `Equal` decides set equality (this is what fails when touching runs are left unmerged). -/
 theorem equal_iff (a b : Pk.Bits.Conn) (ha : RInv a) (hb : RInv b) :
-    Conn.equal a b = true ↔ a.isSet = b.isSet := by sorry
-theorem isZero_iff (c : Pk.Bits.Conn) (h : RInv c) : c.isZero = true ↔ ∀ x, c.isSet x = false := by sorry
+    Conn.equal a b = true ↔ a.isSet = b.isSet := by
+  have tie : ∀ c, RInv c ↔ Pk.Proofs.Bits.Conn.RInv c :=
+    Pk.Proofs.Bits.Conn.rinv_unique RInv trivial (fun _ => Iff.rfl) (fun _ _ _ => Iff.rfl)
+  rw [tie] at *
+  exact Pk.Proofs.Bits.Conn.equal_iff a b ha hb
+theorem isZero_iff (c : Pk.Bits.Conn) (h : RInv c) : c.isZero = true ↔ ∀ x, c.isSet x = false := by
+  have tie : ∀ c, RInv c ↔ Pk.Proofs.Bits.Conn.RInv c :=
+    Pk.Proofs.Bits.Conn.rinv_unique RInv trivial (fun _ => Iff.rfl) (fun _ _ _ => Iff.rfl)
+  rw [tie] at *
+  exact Pk.Proofs.Bits.Conn.isZero_iff c h
 /-- `Len` is one more than the largest member (0 for the empty set). -/
 theorem len_sup (c : Pk.Bits.Conn) (h : RInv c) :
-    (∀ x, c.len ≤ x → c.isSet x = false) ∧ (0 < c.len → c.isSet (c.len - 1) = true) := by sorry
+    (∀ x, c.len ≤ x → c.isSet x = false) ∧ (0 < c.len → c.isSet (c.len - 1) = true) := by
+  have tie : ∀ c, RInv c ↔ Pk.Proofs.Bits.Conn.RInv c :=
+    Pk.Proofs.Bits.Conn.rinv_unique RInv trivial (fun _ => Iff.rfl) (fun _ _ _ => Iff.rfl)
+  rw [tie] at *
+  exact Pk.Proofs.Bits.Conn.len_sup c h
 /-- `OnesCount` is the cardinality of the denoted set. -/
 theorem onesCount_card (c : Pk.Bits.Conn) (h : RInv c) :
-    c.onesCount = (List.range c.len).countP c.isSet := by sorry
+    c.onesCount = (List.range c.len).countP c.isSet := by
+  have tie : ∀ c, RInv c ↔ Pk.Proofs.Bits.Conn.RInv c :=
+    Pk.Proofs.Bits.Conn.rinv_unique RInv trivial (fun _ => Iff.rfl) (fun _ _ _ => Iff.rfl)
+  rw [tie] at *
+  exact Pk.Proofs.Bits.Conn.onesCount_card c h
 
 end Conn
 
@@ -88,26 +188,40 @@ end Conn
 namespace Long
 open Pk.Bits.Long
 
-theorem set_abs (l : Pk.Bits.Long) (b : Nat) : (l.set b).isSet = specSet l.isSet b := by sorry
-theorem unset_abs (l : Pk.Bits.Long) (b : Nat) : (l.unset b).isSet = specUnset l.isSet b := by sorry
-theorem flip_abs (l : Pk.Bits.Long) (b : Nat) : (l.flip b).isSet = specFlip l.isSet b := by sorry
-theorem or_abs (a b : Pk.Bits.Long) : (Long.or a b).isSet = specOr a.isSet b.isSet := by sorry
-theorem and_abs (a b : Pk.Bits.Long) : (Long.and a b).isSet = specAnd a.isSet b.isSet := by sorry
-theorem xor_abs (a b : Pk.Bits.Long) : (Long.xor a b).isSet = specXor a.isSet b.isSet := by sorry
-theorem sub_abs (a b : Pk.Bits.Long) : (Long.sub a b).isSet = specSub a.isSet b.isSet := by sorry
-theorem shrink_abs (l : Pk.Bits.Long) : l.shrink.isSet = l.isSet := by sorry
+theorem set_abs (l : Pk.Bits.Long) (b : Nat) : (l.set b).isSet = specSet l.isSet b := by
+  funext x; simp [specSet, Pk.Proofs.Bits.Long.set_isSet]
+theorem unset_abs (l : Pk.Bits.Long) (b : Nat) : (l.unset b).isSet = specUnset l.isSet b := by
+  funext x; simp [specUnset, Pk.Proofs.Bits.Long.unset_isSet]
+theorem flip_abs (l : Pk.Bits.Long) (b : Nat) : (l.flip b).isSet = specFlip l.isSet b := by
+  funext x; simp [specFlip, Pk.Proofs.Bits.Long.flip_isSet]
+theorem or_abs (a b : Pk.Bits.Long) : (Long.or a b).isSet = specOr a.isSet b.isSet := by
+  funext x; simp [specOr, Pk.Proofs.Bits.Long.or_isSet]
+theorem and_abs (a b : Pk.Bits.Long) : (Long.and a b).isSet = specAnd a.isSet b.isSet := by
+  funext x; simp [specAnd, Pk.Proofs.Bits.Long.and_isSet]
+theorem xor_abs (a b : Pk.Bits.Long) : (Long.xor a b).isSet = specXor a.isSet b.isSet := by
+  funext x; simp [specXor, Pk.Proofs.Bits.Long.xor_isSet]
+theorem sub_abs (a b : Pk.Bits.Long) : (Long.sub a b).isSet = specSub a.isSet b.isSet := by
+  funext x; simp [specSub, Pk.Proofs.Bits.Long.sub_isSet]
+theorem shrink_abs (l : Pk.Bits.Long) : l.shrink.isSet = l.isSet := by
+  funext x; exact Pk.Proofs.Bits.Long.shrink_isSet l x
 theorem inject_abs (l : Pk.Bits.Long) (bit : Nat) (v : Bool) :
-    (l.inject bit v).isSet = specInject l.isSet bit v := by sorry
-theorem equal_iff (a b : Pk.Bits.Long) : Long.equal a b = true ↔ a.isSet = b.isSet := by sorry
-theorem isZero_iff (l : Pk.Bits.Long) : l.isZero = true ↔ ∀ x, l.isSet x = false := by sorry
+    (l.inject bit v).isSet = specInject l.isSet bit v := by
+  funext x; exact Pk.Proofs.Bits.Long.inject_isSet l bit v x
+theorem equal_iff (a b : Pk.Bits.Long) : Long.equal a b = true ↔ a.isSet = b.isSet := by
+  exact Pk.Proofs.Bits.Long.equal_iff a b
+theorem isZero_iff (l : Pk.Bits.Long) : l.isZero = true ↔ ∀ x, l.isSet x = false := by
+  exact Pk.Proofs.Bits.Long.isZero_iff l
 theorem len_sup (l : Pk.Bits.Long) :
-    (∀ x, l.len ≤ x → l.isSet x = false) ∧ (0 < l.len → l.isSet (l.len - 1) = true) := by sorry
+    (∀ x, l.len ≤ x → l.isSet x = false) ∧ (0 < l.len → l.isSet (l.len - 1) = true) := by
+  exact Pk.Proofs.Bits.Long.len_sup l
 theorem onesCount_card (l : Pk.Bits.Long) :
-    l.onesCount = (List.range (64 * l.length)).countP l.isSet := by sorry
+    l.onesCount = (List.range (64 * l.length)).countP l.isSet := by
+  exact Pk.Proofs.Bits.Long.onesCount_card l
 /-- `Next` returns the least member ≥ `bit`, and `none` exactly when there is none. -/
 theorem next_least (l : Pk.Bits.Long) (bit : Nat) :
     (∀ n, l.next bit = some n → bit ≤ n ∧ l.isSet n = true ∧ ∀ y, bit ≤ y → y < n → l.isSet y = false) ∧
-    (l.next bit = none → ∀ y, bit ≤ y → l.isSet y = false) := by sorry
+    (l.next bit = none → ∀ y, bit ≤ y → l.isSet y = false) := by
+  exact Pk.Proofs.Bits.Long.next_least l bit
 
 end Long
 
@@ -115,25 +229,40 @@ end Long
 namespace Short
 open Pk.Bits.Short
 
-theorem set_abs (s : Pk.Bits.Short) (b : Nat) : (s.set b).isSet = specSet s.isSet b := by sorry
-theorem unset_abs (s : Pk.Bits.Short) (b : Nat) : (s.unset b).isSet = specUnset s.isSet b := by sorry
-theorem flip_abs (s : Pk.Bits.Short) (b : Nat) : (s.flip b).isSet = specFlip s.isSet b := by sorry
-theorem or_abs (a b : Pk.Bits.Short) : (Short.or a b).isSet = specOr a.isSet b.isSet := by sorry
-theorem and_abs (a b : Pk.Bits.Short) : (Short.and a b).isSet = specAnd a.isSet b.isSet := by sorry
-theorem xor_abs (a b : Pk.Bits.Short) : (Short.xor a b).isSet = specXor a.isSet b.isSet := by sorry
-theorem sub_abs (a b : Pk.Bits.Short) : (Short.sub a b).isSet = specSub a.isSet b.isSet := by sorry
-theorem shrink_abs (s : Pk.Bits.Short) : s.shrink.isSet = s.isSet := by sorry
+theorem set_abs (s : Pk.Bits.Short) (b : Nat) : (s.set b).isSet = specSet s.isSet b := by
+  funext x; simp only [specSet]; exact Pk.Proofs.Bits.Short.set_isSet s b x
+theorem unset_abs (s : Pk.Bits.Short) (b : Nat) : (s.unset b).isSet = specUnset s.isSet b := by
+  funext x; simp only [specUnset]; exact Pk.Proofs.Bits.Short.unset_isSet s b x
+theorem flip_abs (s : Pk.Bits.Short) (b : Nat) : (s.flip b).isSet = specFlip s.isSet b := by
+  funext x; simp only [specFlip]; exact Pk.Proofs.Bits.Short.flip_isSet s b x
+theorem or_abs (a b : Pk.Bits.Short) : (Short.or a b).isSet = specOr a.isSet b.isSet := by
+  funext x; simp only [specOr]; exact Pk.Proofs.Bits.Short.or_isSet a b x
+theorem and_abs (a b : Pk.Bits.Short) : (Short.and a b).isSet = specAnd a.isSet b.isSet := by
+  funext x; simp only [specAnd]; exact Pk.Proofs.Bits.Short.and_isSet a b x
+theorem xor_abs (a b : Pk.Bits.Short) : (Short.xor a b).isSet = specXor a.isSet b.isSet := by
+  funext x; simp only [specXor]; exact Pk.Proofs.Bits.Short.xor_isSet a b x
+theorem sub_abs (a b : Pk.Bits.Short) : (Short.sub a b).isSet = specSub a.isSet b.isSet := by
+  funext x; simp only [specSub]; exact Pk.Proofs.Bits.Short.sub_isSet a b x
+theorem shrink_abs (s : Pk.Bits.Short) : s.shrink.isSet = s.isSet := by
+  funext x; exact Pk.Proofs.Bits.Short.shrink_isSet s x
 theorem inject_abs (s : Pk.Bits.Short) (bit : Nat) (v : Bool) :
-    (s.inject bit v).isSet = specInject s.isSet bit v := by sorry
+    (s.inject bit v).isSet = specInject s.isSet bit v := by
+  funext x; simp only [specInject]; exact Pk.Proofs.Bits.Short.inject_isSet s bit v x
 theorem extract_abs (s : Pk.Bits.Short) (bit : Nat) :
-    (s.extract bit).1.isSet = specExtract s.isSet bit := by sorry
-theorem extract_ret (s : Pk.Bits.Short) (bit : Nat) : (s.extract bit).2 = s.isSet bit := by sorry
-theorem equal_iff (a b : Pk.Bits.Short) : Short.equal a b = true ↔ a.isSet = b.isSet := by sorry
-theorem isZero_iff (s : Pk.Bits.Short) : s.isZero = true ↔ ∀ x, s.isSet x = false := by sorry
+    (s.extract bit).1.isSet = specExtract s.isSet bit := by
+  funext x; simp only [specExtract]; exact Pk.Proofs.Bits.Short.extract_isSet s bit x
+theorem extract_ret (s : Pk.Bits.Short) (bit : Nat) : (s.extract bit).2 = s.isSet bit := by
+  exact Pk.Proofs.Bits.Short.extract_ret s bit
+theorem equal_iff (a b : Pk.Bits.Short) : Short.equal a b = true ↔ a.isSet = b.isSet := by
+  exact Pk.Proofs.Bits.Short.equal_iff a b
+theorem isZero_iff (s : Pk.Bits.Short) : s.isZero = true ↔ ∀ x, s.isSet x = false := by
+  exact Pk.Proofs.Bits.Short.isZero_iff s
 theorem len_sup (s : Pk.Bits.Short) :
-    (∀ x, s.len ≤ x → s.isSet x = false) ∧ (0 < s.len → s.isSet (s.len - 1) = true) := by sorry
+    (∀ x, s.len ≤ x → s.isSet x = false) ∧ (0 < s.len → s.isSet (s.len - 1) = true) := by
+  exact Pk.Proofs.Bits.Short.len_sup s
 theorem onesCount_card (s : Pk.Bits.Short) :
-    s.onesCount = (List.range (64 * s.words.length)).countP s.isSet := by sorry
+    s.onesCount = (List.range (64 * s.words.length)).countP s.isSet := by
+  exact Pk.Proofs.Bits.Short.onesCount_card s
 
 end Short
 
@@ -218,25 +347,170 @@ def hasExtract : Op → Bool
 
 /-- every reachable ConnectedBitmask satisfies the representation invariant -/
 theorem Conn.run_inv (ops : List Op) (hok : ∀ o ∈ ops, o.ok) (r : Nat) :
-    Conn.RInv (ops.foldl stepConn (fun _ => []) r) := by sorry
+    Conn.RInv (ops.foldl stepConn (fun _ => []) r) := by
+  have step : ∀ (f : Nat → Pk.Bits.Conn) (o : Op), o.ok → (∀ r, Conn.RInv (f r)) →
+      ∀ r, Conn.RInv (stepConn f o r) := by
+    intro f o ho hf r
+    cases o <;> simp only [stepConn, upd] <;> split <;> try exact hf r
+    · exact Conn.make_inv _ _ ho
+    · exact Conn.set_inv _ _ (hf _)
+    · exact Conn.unset_inv _ _ (hf _)
+    · exact Conn.flip_inv _ _ (hf _)
+    · exact Conn.or_inv _ _ (hf _) (hf _)
+    · exact Conn.and_inv _ _ (hf _) (hf _)
+    · exact Conn.xor_inv _ _ (hf _) (hf _)
+    · exact Conn.sub_inv _ _ (hf _) (hf _)
+    · exact hf _
+    · exact Conn.inject_inv _ _ _ (hf _)
+    · exact Conn.extract_inv _ _ (hf _)
+  have key : ∀ (ops : List Op) (f : Nat → Pk.Bits.Conn), (∀ o ∈ ops, o.ok) → (∀ r, Conn.RInv (f r)) →
+      ∀ r, Conn.RInv (ops.foldl stepConn f r) := by
+    intro ops
+    induction ops with
+    | nil => intro f _ hf r; exact hf r
+    | cons o ops ih =>
+      intro f hok hf r
+      rw [List.foldl_cons]
+      exact ih _ (fun o' ho' => hok o' (List.mem_cons_of_mem _ ho'))
+        (step f o (hok o (List.mem_cons_self ..)) hf) r
+  exact key ops (fun _ => []) hok (fun _ => by simp [Conn.RInv]) r
 
 /-- For every operation sequence and every register, the ConnectedBitmask machine, started from
     empty masks, denotes exactly what the integer-set machine holds. -/
 theorem run_conn_refines (ops : List Op) (hok : ∀ o ∈ ops, o.ok) (r : Nat) :
-    (ops.foldl stepConn (fun _ => []) r).isSet = ops.foldl stepSpec (fun _ _ => false) r := by sorry
+    (ops.foldl stepConn (fun _ => []) r).isSet = ops.foldl stepSpec (fun _ _ => false) r := by
+  have stepInv : ∀ (f : Nat → Pk.Bits.Conn) (o : Op), o.ok → (∀ r, Conn.RInv (f r)) →
+      ∀ r, Conn.RInv (stepConn f o r) := by
+    intro f o ho hf r
+    cases o <;> simp only [stepConn, upd] <;> split <;> try exact hf r
+    · exact Conn.make_inv _ _ ho
+    · exact Conn.set_inv _ _ (hf _)
+    · exact Conn.unset_inv _ _ (hf _)
+    · exact Conn.flip_inv _ _ (hf _)
+    · exact Conn.or_inv _ _ (hf _) (hf _)
+    · exact Conn.and_inv _ _ (hf _) (hf _)
+    · exact Conn.xor_inv _ _ (hf _) (hf _)
+    · exact Conn.sub_inv _ _ (hf _) (hf _)
+    · exact hf _
+    · exact Conn.inject_inv _ _ _ (hf _)
+    · exact Conn.extract_inv _ _ (hf _)
+  have step : ∀ (f : Nat → Pk.Bits.Conn) (g : Nat → BSet) (o : Op), o.ok → (∀ r, Conn.RInv (f r)) →
+      (∀ r, (f r).isSet = g r) → ∀ r, (stepConn f o r).isSet = stepSpec g o r := by
+    intro f g o ho hf hg r
+    cases o <;> simp only [stepConn, stepSpec, upd] <;> split <;> try exact hg r
+    · funext x; exact Conn.make_abs _ _ x
+    · rw [← hg]; exact Conn.set_abs _ _ (hf _)
+    · rw [← hg]; exact Conn.unset_abs _ _ (hf _)
+    · rw [← hg]; exact Conn.flip_abs _ _ (hf _)
+    · rw [← hg, ← hg]; exact Conn.or_abs _ _ (hf _) (hf _)
+    · rw [← hg, ← hg]; exact Conn.and_abs _ _ (hf _) (hf _)
+    · rw [← hg, ← hg]; exact Conn.xor_abs _ _ (hf _) (hf _)
+    · rw [← hg, ← hg]; exact Conn.sub_abs _ _ (hf _) (hf _)
+    · exact hg _
+    · rw [← hg]; exact Conn.inject_abs _ _ _ (hf _)
+    · rw [← hg]; exact Conn.extract_abs _ _ (hf _)
+  have key : ∀ (ops : List Op) (f : Nat → Pk.Bits.Conn) (g : Nat → BSet), (∀ o ∈ ops, o.ok) →
+      (∀ r, Conn.RInv (f r)) → (∀ r, (f r).isSet = g r) →
+      ∀ r, (ops.foldl stepConn f r).isSet = ops.foldl stepSpec g r := by
+    intro ops
+    induction ops with
+    | nil => intro f g _ _ hg r; exact hg r
+    | cons o ops ih =>
+      intro f g hok hf hg r
+      rw [List.foldl_cons, List.foldl_cons]
+      have ho := hok o (List.mem_cons_self ..)
+      exact ih _ _ (fun o' ho' => hok o' (List.mem_cons_of_mem _ ho'))
+        (stepInv f o ho hf) (step f g o ho hf hg) r
+  exact key ops (fun _ => []) _ hok (fun _ => by simp [Conn.RInv]) (fun _ => by funext x; rfl) r
 
 theorem run_short_refines (ops : List Op) (hok : ∀ o ∈ ops, o.ok) (r : Nat) :
-    (ops.foldl stepShort (fun _ => .last 0#64) r).isSet = ops.foldl stepSpec (fun _ _ => false) r := by sorry
+    (ops.foldl stepShort (fun _ => .last 0#64) r).isSet = ops.foldl stepSpec (fun _ _ => false) r := by
+  have hrange : ∀ lo hi, (shortRange lo hi).isSet = fun x => decide (lo ≤ x) && decide (x ≤ hi) := by
+    intro lo hi
+    funext x
+    have := Pk.Proofs.Bits.foldl_set_range Pk.Bits.Short.set Pk.Bits.Short.isSet
+      Pk.Proofs.Bits.Short.set_isSet (.last 0#64) lo (hi + 1 - lo) x
+    rw [shortRange, this]
+    have e : decide (x < lo + (hi + 1 - lo)) = (decide (lo ≤ x) && decide (x ≤ hi) || !decide (lo ≤ x)) := by
+      by_cases h1 : lo ≤ x <;> by_cases h2 : x ≤ hi <;> simp [h1, h2] <;> omega
+    have z : Pk.Bits.Short.isSet (.last 0#64) x = false := by simp [Pk.Bits.Short.isSet]
+    rw [e, z]; cases decide (lo ≤ x) <;> simp
+  have step : ∀ (f : Nat → Pk.Bits.Short) (g : Nat → BSet) (o : Op),
+      (∀ r, (f r).isSet = g r) → ∀ r, (stepShort f o r).isSet = stepSpec g o r := by
+    intro f g o hg r
+    cases o <;> simp only [stepShort, stepSpec, upd] <;> split <;> try exact hg r
+    · exact hrange _ _
+    · rw [← hg]; exact Short.set_abs _ _
+    · rw [← hg]; exact Short.unset_abs _ _
+    · rw [← hg]; exact Short.flip_abs _ _
+    · rw [← hg, ← hg]; exact Short.or_abs _ _
+    · rw [← hg, ← hg]; exact Short.and_abs _ _
+    · rw [← hg, ← hg]; exact Short.xor_abs _ _
+    · rw [← hg, ← hg]; exact Short.sub_abs _ _
+    · exact hg _
+    · rw [← hg]; exact Short.inject_abs _ _ _
+    · rw [← hg]; exact Short.extract_abs _ _
+  have key : ∀ (ops : List Op) (f : Nat → Pk.Bits.Short) (g : Nat → BSet),
+      (∀ r, (f r).isSet = g r) → ∀ r, (ops.foldl stepShort f r).isSet = ops.foldl stepSpec g r := by
+    intro ops
+    induction ops with
+    | nil => intro f g hg r; exact hg r
+    | cons o ops ih =>
+      intro f g hg r
+      rw [List.foldl_cons, List.foldl_cons]
+      exact ih _ _ (step f g o hg) r
+  have _ := hok
+  exact key ops _ _ (fun _ => by funext x; simp [Pk.Bits.Short.isSet]) r
 
 /-- LongBitmask offers no Extract, so its run is compared on extract-free sequences. -/
 theorem run_long_refines (ops : List Op) (hok : ∀ o ∈ ops, o.ok) (hne : ∀ o ∈ ops, hasExtract o = false)
     (r : Nat) :
-    (ops.foldl stepLong (fun _ => []) r).isSet = ops.foldl stepSpec (fun _ _ => false) r := by sorry
+    (ops.foldl stepLong (fun _ => []) r).isSet = ops.foldl stepSpec (fun _ _ => false) r := by
+  have hrange : ∀ lo hi, (longRange lo hi).isSet = fun x => decide (lo ≤ x) && decide (x ≤ hi) := by
+    intro lo hi
+    funext x
+    have := Pk.Proofs.Bits.foldl_set_range Pk.Bits.Long.set Pk.Bits.Long.isSet
+      Pk.Proofs.Bits.Long.set_isSet [] lo (hi + 1 - lo) x
+    rw [longRange, this]
+    have e : decide (x < lo + (hi + 1 - lo)) = (decide (lo ≤ x) && decide (x ≤ hi) || !decide (lo ≤ x)) := by
+      by_cases h1 : lo ≤ x <;> by_cases h2 : x ≤ hi <;> simp [h1, h2] <;> omega
+    have z : Pk.Bits.Long.isSet [] x = false := by simp [Pk.Bits.Long.isSet]
+    rw [e, z]; cases decide (lo ≤ x) <;> simp
+  have step : ∀ (f : Nat → Pk.Bits.Long) (g : Nat → BSet) (o : Op), hasExtract o = false →
+      (∀ r, (f r).isSet = g r) → ∀ r, (stepLong f o r).isSet = stepSpec g o r := by
+    intro f g o hx hg r
+    cases o <;> simp only [stepLong, stepSpec, upd] <;> split <;> try exact hg r
+    · exact hrange _ _
+    · rw [← hg]; exact Long.set_abs _ _
+    · rw [← hg]; exact Long.unset_abs _ _
+    · rw [← hg]; exact Long.flip_abs _ _
+    · rw [← hg, ← hg]; exact Long.or_abs _ _
+    · rw [← hg, ← hg]; exact Long.and_abs _ _
+    · rw [← hg, ← hg]; exact Long.xor_abs _ _
+    · rw [← hg, ← hg]; exact Long.sub_abs _ _
+    · exact hg _
+    · rw [← hg]; exact Long.inject_abs _ _ _
+    · simp [hasExtract] at hx
+  have key : ∀ (ops : List Op) (f : Nat → Pk.Bits.Long) (g : Nat → BSet),
+      (∀ o ∈ ops, hasExtract o = false) →
+      (∀ r, (f r).isSet = g r) → ∀ r, (ops.foldl stepLong f r).isSet = ops.foldl stepSpec g r := by
+    intro ops
+    induction ops with
+    | nil => intro f g _ hg r; exact hg r
+    | cons o ops ih =>
+      intro f g hne hg r
+      rw [List.foldl_cons, List.foldl_cons]
+      exact ih _ _ (fun o' ho' => hne o' (List.mem_cons_of_mem _ ho'))
+        (step f g o (hne o (List.mem_cons_self ..)) hg) r
+  have _ := hok
+  exact key ops _ _ hne (fun _ => by funext x; simp [Pk.Bits.Long.isSet]) r
 
 /-- the three representations agree with each other after every operation sequence -/
 theorem run_agrees (ops : List Op) (hok : ∀ o ∈ ops, o.ok) (hne : ∀ o ∈ ops, hasExtract o = false) (r : Nat) :
     (ops.foldl stepConn (fun _ => []) r).isSet = (ops.foldl stepLong (fun _ => []) r).isSet ∧
-    (ops.foldl stepConn (fun _ => []) r).isSet = (ops.foldl stepShort (fun _ => .last 0#64) r).isSet := by sorry
+    (ops.foldl stepConn (fun _ => []) r).isSet = (ops.foldl stepShort (fun _ => .last 0#64) r).isSet := by
+  rw [run_conn_refines ops hok r, run_long_refines ops hok hne r, run_short_refines ops hok r]
+  exact ⟨rfl, rfl⟩
 
 /-! ### non-vacuity: the hypotheses are satisfiable by concrete non-trivial states -/
 example : Conn.RInv [⟨0, 3⟩, ⟨5, 5⟩, ⟨64, 127⟩] := by simp [Conn.RInv]
